@@ -62,15 +62,17 @@ type v16Sess struct {
 }
 
 type v16 struct {
-	res   *vlib.Result
-	cap   int
-	shard int
-	br    *vBroker
-	relay *vRelay
-	run   *vProxyRun
-	rng   *vlib.Rand
-	t0    time.Time
-	noFix bool // do not repair the slot state after a violation (experiments)
+	res    *vlib.Result
+	cap    int
+	shard  int
+	br     *vBroker
+	relay  *vRelay
+	run    *vProxyRun
+	rng    *vlib.Rand
+	t0     time.Time
+	noFix  bool   // do not repair the slot state after a violation (experiments)
+	nonTLS bool   // the proxy's AllowNonTLSRelay
+	scheme string // scheme of the relay URLs the proxy is meant to accept: ws, or wss when nonTLS is false
 
 	mu      sync.Mutex
 	bySid   map[string]*v16Sess
@@ -515,7 +517,7 @@ func (h *v16) closeDue(stepIdx int) {
 // ---- one script step ---------------------------------------------------------------------
 
 func (h *v16) relayURLFor(s *v16Sess, mode string) string {
-	return fmt.Sprintf("ws://%s/%s/%s", h.relay.hostport(), s.key, mode)
+	return fmt.Sprintf("%s://%s/%s/%s", h.scheme, h.relay.hostport(), s.key, mode)
 }
 
 func (h *v16) newSess(st *v16Step, withPeer bool) *v16Sess {
@@ -624,19 +626,58 @@ func (h *v16) runStep(st *v16Step) {
 			p.replyNoMatch()
 			return
 		}
+		// three sub-classes of the exit path, each wrong in exactly one respect:
+		// host outside the pattern (scheme as the proxy wants it), allowed host
+		// with a scheme other than wss (rejected only when non-TLS relays are
+		// not allowed), unparsable
+		sub := "host"
+		good := h.relay.hostport() // 127.0.0.1:port, inside the pattern
 		switch st.Variant {
 		case "out-of-pattern":
-			s.relayURL = fmt.Sprintf("ws://127.0.0.9:%d/%s/echo", h.relay.port, s.key)
+			s.relayURL = fmt.Sprintf("%s://127.0.0.9:%d/%s/echo", h.scheme, h.relay.port, s.key)
 		case "userinfo":
-			s.relayURL = fmt.Sprintf("ws://127.0.0.1@127.0.0.9:%d/%s/echo", h.relay.port, s.key)
+			s.relayURL = fmt.Sprintf("%s://127.0.0.1@127.0.0.9:%d/%s/echo", h.scheme, h.relay.port, s.key)
 		case "trailing-dot":
-			s.relayURL = fmt.Sprintf("ws://127.0.0.1.:%d/%s/echo", h.relay.port, s.key)
+			s.relayURL = fmt.Sprintf("%s://127.0.0.1.:%d/%s/echo", h.scheme, h.relay.port, s.key)
+		case "scheme-ws":
+			sub = "scheme"
+			s.relayURL = fmt.Sprintf("ws://%s/%s/echo", good, s.key)
+		case "scheme-ws-userinfo":
+			sub = "scheme"
+			s.relayURL = fmt.Sprintf("ws://wss@%s/%s/echo", good, s.key)
+		case "scheme-ws-userinfo-port":
+			sub = "scheme"
+			s.relayURL = fmt.Sprintf("ws://wss:443@%s/%s/echo", good, s.key)
+		case "scheme-ws-no-port":
+			sub = "scheme"
+			s.relayURL = fmt.Sprintf("ws://127.0.0.1/%s/echo", s.key)
+		case "scheme-http":
+			sub = "scheme"
+			s.relayURL = fmt.Sprintf("http://%s/%s/echo", good, s.key)
+		case "scheme-https":
+			sub = "scheme"
+			s.relayURL = fmt.Sprintf("https://%s/%s/echo", good, s.key)
+		case "scheme-empty":
+			sub = "scheme"
+			s.relayURL = fmt.Sprintf("//%s/%s/echo", good, s.key)
+		case "scheme-wss-lookalike":
+			sub = "scheme"
+			s.relayURL = fmt.Sprintf("wsss://%s/%s/echo?scheme=wss", good, s.key)
 		default: // unparsable
-			s.relayURL = fmt.Sprintf("ws://127.0.0.1:%d%%zz/%s/echo", h.relay.port, s.key)
+			sub = "unparsable"
+			s.relayURL = fmt.Sprintf("%s://127.0.0.1:%d%%zz/%s/echo", h.scheme, h.relay.port, s.key)
+		}
+		if sub == "scheme" && h.nonTLS {
+			// with non-TLS relays allowed these URLs are not rejected at all
+			h.res.Inconcl(fmt.Sprintf("step %d: scheme variant %s scheduled for a proxy that allows non-TLS relays", st.Idx, st.Variant))
+			p.replyNoMatch()
+			s.peer.close("pc")
+			return
 		}
 		h.register(s, p.Sid)
 		p.reply(200, vMatchBody(s.peer.offer, s.relayURL))
-		h.addRecent("bad-relay")
+		h.addRecent("bad-relay-" + sub)
+		h.res.Obs("outcome_bad-relay-"+sub, 1)
 		h.stepDone(st, overlap)
 		go func() { time.Sleep(3 * time.Second); s.peer.close("pc") }()
 
@@ -698,7 +739,7 @@ func (h *v16) runStep(st *v16Step) {
 		switch {
 		case st.Kind == "relay-down":
 			s.downAddr = fmt.Sprintf("127.0.0.1:%d", vRefusingPort())
-			s.relayURL = fmt.Sprintf("ws://%s/%s/echo", s.downAddr, s.key)
+			s.relayURL = fmt.Sprintf("%s://%s/%s/echo", h.scheme, s.downAddr, s.key)
 		case st.Kind == "relay-closes":
 			s.relayURL = h.relayURLFor(s, st.Variant)
 		case st.DefURL:
@@ -1049,14 +1090,27 @@ func (h *v16) finalProbe() {
 // ---- script generation ------------------------------------------------------------------------
 
 var v16Variants = map[string][]string{
-	"no-offer":       {"http-500", "malformed-json", "unknown-status", "empty-body", "match-without-offer", "not-an-object"},
-	"bad-offer":      {"json-garbage", "no-sdp-field", "unknown-type", "json-null", "sdp-garbage", "sdp-empty", "type-answer", "sdp-no-ice"},
-	"bad-relay":      {"out-of-pattern", "userinfo", "trailing-dot", "unparsable"},
-	"answer-refused": {"client-gone", "http-500", "malformed", "empty-status"},
-	"relay-closes":   {"close-now", "close-after-first"},
+	"no-offer":  {"http-500", "malformed-json", "unknown-status", "empty-body", "match-without-offer", "not-an-object"},
+	"bad-offer": {"json-garbage", "no-sdp-field", "unknown-type", "json-null", "sdp-garbage", "sdp-empty", "type-answer", "sdp-no-ice"},
+	"bad-relay": {"out-of-pattern", "userinfo", "trailing-dot", "unparsable"},
+	// only for proxies that do not allow non-TLS relays: allowed host, scheme not wss
+	"bad-relay-scheme": {"scheme-ws", "scheme-ws-userinfo", "scheme-ws-userinfo-port", "scheme-ws-no-port", "scheme-http", "scheme-https", "scheme-empty", "scheme-wss-lookalike"},
+	"answer-refused":   {"client-gone", "http-500", "malformed", "empty-status"},
+	"relay-closes":     {"close-now", "close-after-first"},
 }
 
-func v16Plan(shard, nshards int, r *vlib.Rand) (int, []*v16Step) {
+// v16WssOnly: shards whose proxy runs with AllowNonTLSRelay=false (relay behind
+// TLS, wss URLs): 4 of 12 quick shards (capacities 3, 2, 4, 1), 6 of 16 thorough.
+func v16WssOnly(shard int) bool {
+	switch shard % 16 {
+	case 2, 4, 6, 11, 13, 15:
+		return true
+	}
+	return false
+}
+
+func v16Plan(shard, nshards int, r *vlib.Rand) (int, bool, []*v16Step) {
+	wssOnly := v16WssOnly(shard)
 	var caps []int
 	if vlib.Thorough() {
 		caps = []int{1, 2, 3, 4, 2, 1, 4, 3, 9, 17, 3, 1, 2, 4, 1, 2}
@@ -1095,11 +1149,29 @@ func v16Plan(shard, nshards int, r *vlib.Rand) (int, []*v16Step) {
 			kinds[r.Range(0, n-1)] = "never-open"
 		}
 	}
+	// wss-only shards: the scheme sub-class of "rejected relay URL" at least
+	// once (quick) / three times (thorough), not on top of a 20 s outcome
+	forcedScheme := map[int]bool{}
+	if wssOnly {
+		for want := vlib.Scale(1, 3); want > 0; want-- {
+			for try := 0; try < 50; try++ {
+				i := r.Intn(n)
+				if kinds[i] != "late-open" && kinds[i] != "never-open" && !forcedScheme[i] {
+					kinds[i] = "bad-relay"
+					forcedScheme[i] = true
+					break
+				}
+			}
+		}
+	}
 	var steps []*v16Step
 	for i, k := range kinds {
 		st := &v16Step{Idx: i, Kind: k}
 		if vs := v16Variants[k]; len(vs) > 0 {
 			st.Variant = r.PickString(vs)
+		}
+		if k == "bad-relay" && wssOnly && (forcedScheme[i] || r.Chance(1, 2)) {
+			st.Variant = r.PickString(v16Variants["bad-relay-scheme"])
 		}
 		if k == "normal" {
 			maxHold := capacity - 1
@@ -1116,13 +1188,15 @@ func v16Plan(shard, nshards int, r *vlib.Rand) (int, []*v16Step) {
 		steps[0].Hold = 3
 		steps[0].DefURL = false
 	}
-	return capacity, steps
+	return capacity, wssOnly, steps
 }
 
-func v16ParseScript(spec string, r *vlib.Rand) (int, []*v16Step) {
+func v16ParseScript(spec string, r *vlib.Rand) (int, bool, []*v16Step) {
 	capacity := 1
+	wssOnly := false
 	if i := strings.Index(spec, ":"); i >= 0 {
 		fmt.Sscanf(spec[:i], "%d", &capacity)
+		wssOnly = strings.HasSuffix(spec[:i], "s") // "2s:..." = capacity 2, AllowNonTLSRelay=false
 		spec = spec[i+1:]
 	}
 	if capacity < 1 {
@@ -1143,20 +1217,20 @@ func v16ParseScript(spec string, r *vlib.Rand) (int, []*v16Step) {
 		}
 		steps = append(steps, st)
 	}
-	return capacity, steps
+	return capacity, wssOnly, steps
 }
 
 // ---- the test -------------------------------------------------------------------------------------
 
 func TestVerifC16(t *testing.T) {
-	res := vlib.NewResult("C16", "inpkg-proxy-c16", "per shard one real SnowflakeProxy (capacity 1..4, 9, 17) driven by a scripted broker, real pion client peers and a WebSocket relay through a PRNG script of session outcomes (idle, no offer x6, undecodable offer x8, rejected relay URL x4, refused answer x4, data channel never opened, data channel opened while the 20 s timeout branch runs (hook-steered), relay unreachable, relay closes x2, normal end x3, overlapping up to the capacity), then N simultaneous sessions and Stop; every poll is a held quiescent point where slots in use are compared with 1 + sessions proven in progress by end-to-end echo and classified with a goroutine dump; non-trivial = outcome executed to its expected exit, distinct by (capacity, outcome, variant, close mode, sessions open at hand-out)")
+	res := vlib.NewResult("C16", "inpkg-proxy-c16", "per shard one real SnowflakeProxy (capacity 1..4, 9, 17) driven by a scripted broker, real pion client peers and a WebSocket relay through a PRNG script of session outcomes (idle, no offer x6, undecodable offer x8, rejected relay URL x12 in three sub-classes (host outside the pattern / allowed host with a non-wss scheme on proxies with AllowNonTLSRelay=false, whose relay runs behind TLS / unparsable), refused answer x4, data channel never opened, data channel opened while the 20 s timeout branch runs (hook-steered), relay unreachable, relay closes x2, normal end x3, overlapping up to the capacity), then N simultaneous sessions and Stop; every poll is a held quiescent point where slots in use are compared with 1 + sessions proven in progress by end-to-end echo and classified with a goroutine dump; non-trivial = outcome executed to its expected exit, distinct by (capacity, outcome, variant, close mode, sessions open at hand-out)")
 	defer res.Finish()
 	shard, nshards := vlib.Shard()
 	root := vlib.NewRand(vlib.Seed()).Split("c16").SplitN("shard", shard)
-	capacity, steps := v16Plan(shard, nshards, root.Split("plan"))
-	// experiments / minimisation: VERIF_C16_SCRIPT="2:normal,late-open" (capacity:kind[/variant],...)
+	capacity, wssOnly, steps := v16Plan(shard, nshards, root.Split("plan"))
+	// experiments / minimisation: VERIF_C16_SCRIPT="2:normal,late-open" (capacity[s]:kind[/variant],...; s = wss only)
 	if spec := os.Getenv("VERIF_C16_SCRIPT"); spec != "" {
-		capacity, steps = v16ParseScript(spec, root.Split("plan"))
+		capacity, wssOnly, steps = v16ParseScript(spec, root.Split("plan"))
 	}
 
 	st, err := vStartStun()
@@ -1164,27 +1238,43 @@ func TestVerifC16(t *testing.T) {
 		res.Inconcl("fake STUN responder: " + err.Error())
 		return
 	}
-	relay, err := vStartRelay("127.0.0.1", 0)
+	var relay *vRelay
+	scheme := "ws"
+	if wssOnly {
+		scheme = "wss"
+		relay, err = vStartRelayTLS("127.0.0.1", 0)
+		vTrustTestRelayCert()
+	} else {
+		relay, err = vStartRelay("127.0.0.1", 0)
+	}
 	if err != nil {
 		res.Inconcl("relay listener: " + err.Error())
 		return
 	}
 	br := vStartBroker()
 	vInstallDialLog()
-	h := &v16{noFix: os.Getenv("VERIF_C16_NOREPAIR") != "", res: res, cap: capacity, shard: shard, br: br, relay: relay, rng: root.Split("run"), t0: time.Now(), bySid: map[string]*v16Sess{}, script: steps}
+	h := &v16{nonTLS: !wssOnly, scheme: scheme, noFix: os.Getenv("VERIF_C16_NOREPAIR") != "", res: res, cap: capacity, shard: shard, br: br, relay: relay, rng: root.Split("run"), t0: time.Now(), bySid: map[string]*v16Sess{}, script: steps}
 	br.mu.Lock()
 	br.onAnswer = h.onAnswer
 	br.mu.Unlock()
 	h.installHooks()
-	h.run = vStartProxy(uint(capacity), br.url(), st.addr, fmt.Sprintf("ws://%s/default/echo", relay.hostport()), "^127.0.0.1$", true)
+	h.run = vStartProxy(uint(capacity), br.url(), st.addr, fmt.Sprintf("%s://%s/default/echo", scheme, relay.hostport()), "^127.0.0.1$", !wssOnly)
 	res.Note("capacity", capacity)
+	res.Note("allow_non_tls_relay", !wssOnly)
+	res.Obs(fmt.Sprintf("shards_with_allow_non_tls_relay_%v", !wssOnly), 1)
 	res.Note("script", steps)
 	res.Obs(fmt.Sprintf("shards_with_capacity_%d", capacity), 1)
 	planned := map[string]int{}
 	for _, s := range steps {
 		planned[s.Kind]++
 	}
-	h.logf("capacity %d, %d steps", capacity, len(steps))
+	plannedScheme := 0
+	for _, s := range steps {
+		if s.Kind == "bad-relay" && strings.HasPrefix(s.Variant, "scheme-") {
+			plannedScheme++
+		}
+	}
+	h.logf("capacity %d, AllowNonTLSRelay=%v, %d steps", capacity, !wssOnly, len(steps))
 
 	for _, s := range steps {
 		if h.dead {
@@ -1213,6 +1303,12 @@ func TestVerifC16(t *testing.T) {
 	}
 	if planned["late-open"] > 0 {
 		res.RequireObs("steered_window_hits", int64(planned["late-open"]))
+	}
+	if plannedScheme > 0 {
+		res.RequireObs("outcome_bad-relay-scheme", int64(plannedScheme))
+	}
+	if wssOnly && os.Getenv("VERIF_C16_SCRIPT") == "" {
+		res.RequireObs("outcome_bad-relay-scheme", 1)
 	}
 	res.RequireObs("quiescent_points", int64(len(steps)+capacity))
 	res.RequireObs("probe_full_capacity_reached", 1)
